@@ -354,7 +354,7 @@ class V:
 
 
     # ------------------------------------------------------------------ polars containers (stage 2 of DESIGN.md 2.3)
-    def plframe(self, cols, n, lazy=False, nan=False, rid=False):
+    def plframe(self, cols, n, lazy=False, nan=False, rid=False, missing_as_nan=False):
         """cols: list of (name, kind[, nullable]); kind in int/float/str/bool.  Symbolic mode: a sympl frame; concrete mode: a
         real polars frame with the model's values.  nan=True adds a NaN flag per float cell (distinct from null)."""
         import polars as pl
@@ -368,6 +368,9 @@ class V:
             nullable = True if len(c) < 3 or c[2] is None else c[2]
             vals, nulls = self.cells(f"{name}_", kind, n, nullable)
             nans = [self._var(f"{name}_{i}_nan", z3.BoolSort()) for i in range(n)] if (nan and kind == "float") else None
+            if missing_as_nan and kind == "float":
+                # the table as pl.from_pandas hands it over: a missing float cell is NaN, not null (same variable as the pandas null flag)
+                nans, nulls = nulls, [z3.BoolVal(False)] * n
             if self.sym:
                 data[name] = sympl.Col(vals, nulls, PLDT[kind], nans)
             else:
